@@ -428,7 +428,7 @@ Definition name_ok (n : bytes) : bool :=
 Definition is_vchar (c : N) : bool := (33 <=? c) && (c <=? 126) && negb (c =? 44).
 Definition value_ok (v : bytes) : bool :=
   match v with
-  | [] => true
+  | [] => false
   | c :: _ => is_vchar c && is_vchar (last v 0) && forallb (fun c => is_vchar c || (c =? 32) || (c =? 9)) v
   end.
 (* a -bin name carries base64 text without padding: checked by the generator, not needed by any proof *)
@@ -487,7 +487,7 @@ Definition sx_detail (rq : list bytes) (d : detail) : sx :=
 Definition sx_rerr (rq : list bytes) (o : option rpc_error) : sx :=
   match o with
   | None => L []
-  | Some e => L [L [sx_N (e_code e); match e_msg e with None => L [] | Some m => L [B m] end;
+  | Some e => L [L [sx_N (e_code e); B (msg_text (e_msg e));
                     L (map (sx_detail rq) (e_details e))]]
   end.
 Definition sx_payload (rq : list bytes) (p : payload) : sx := L [B (p_data p); sx_info rq (p_info p)].
@@ -549,7 +549,7 @@ Definition run_c02_expect (args : list sx) : sx :=
       ret (L (map (fun e => L [B (fst e); snd e])
                   (sort_by_name (map (fun nr =>
                      let r := snd nr in
-                     let tcn := find (fun tc => bytes_eqb (t_name tc) (fst nr)) tcs in
+                     let tcn := find (fun tc => bytes_eqb (t_name tc) (fst nr)) (filter expandable tcs) in
                      let rq := match tcn with Some tc => req_names tc | None => [] end in
                      (fst nr, sx_result rq (map lname (r_headers r) ++ map lname (r_trailers r)) r)) rs))))
     end
@@ -569,6 +569,14 @@ Definition applicable (grpc_cl grpc_sv : bool) (cfg : list Z) (st : N) : bool :=
   | _ => false
   end.
 
+Definition cfg_ok (cfg : list Z) : bool :=
+  match cfg with
+  | [ver; proto; codec; comp; tls] =>
+    (((ver =? 1) || (ver =? 2)) && ((1 <=? proto) && (proto <=? 3)) && ((codec =? 1) || (codec =? 2))
+     && ((1 <=? comp) && (comp <=? 6)) && ((tls =? 0) || (tls =? 1)))%Z
+  | _ => false
+  end.
+
 Definition id_hdrs (hs : list header) : list header := hs.
 Definition id_wire (w : wire) : wire := w.
 
@@ -581,7 +589,7 @@ Definition run_c02_live (args : list sx) : sx :=
     do tcs <- un_listof un_tcase ts;
     do cfgs <- un_list (un_listof un_I) cfgs;
     let gc := negb (gc =? 0)%Z in let gs := negb (gs =? 0)%Z in
-    if negb (forallb wf tcs) then None
+    if negb (forallb wf tcs) || negb (forallb cfg_ok cfgs) then None
     else match load tcs with
     | Crash => ret sx_crash
     | Err => ret (sx_err "load")
